@@ -104,6 +104,10 @@ def run(chk):
             cases.append((e, list(xs), None, k))
         cases.append(("symdel", list(xs), qs, k))
         cases.append(("nearest_neighbor", list(xs), qs, k))
+        if len(cases) < 40:
+            # an EMPTY second collection (a filtered column with no rows): no pairs, matrices of len(seqs) rows and no column
+            cases.append(("symdel", list(xs), [], k))
+            cases.append(("nearest_neighbor", list(xs), [], k))
         # Hamming mode through every format too (sequences of several lengths: the matrix is still len(seqs) x len(seqs))
         mixed = list(xs) + [xs[0][:-1] if len(xs[0]) > 1 else xs[0] + "A", xs[-1] + "C"]
         for e in ENGINES:
